@@ -158,4 +158,14 @@ TEXT = {
         'note': COMMON_NOTE,
         'technique': 'TLA+ decoder/reader-contract model checked by TLC; Restore action replayed (G->R) with native fault enumeration; fault events validated by TLC (R->T)',
     },
+    'C15': {
+        'text': 'Bounded exhaustive generation plus relational trace validation: TLC enumerates the block histories of spec/Core.tla; '
+                'the real CachingScheduleTracker is fed each history and asked for the schedule under every memory limit; the '
+                'property is the relation SchedOK of spec/Schedule.tla between history, limit and schedule, evaluated on every '
+                'output by the harness (from slot bookkeeping only) and by TLC on the recorded events, together with a '
+                'satisfiability check of the relation for the same history.',
+        'design_ref': 'DESIGN.md section 5 (C15)',
+        'note': COMMON_NOTE,
+        'technique': 'TLA+ relation SchedOK; histories generated by TLC (G->R), outputs of the code validated by TLC against the relation (R->T)',
+    },
 }
